@@ -27,8 +27,7 @@ theorem writeToFile_eq (f : CsvFmt) (geo : Bool) (pf : List Tok) (h naf : Nat) (
       intro ra hra
       have hr := hrows ra hra
       exact (row_roundtrip_line f geo pf naf ra.1 ra.2 hv hsep hnl (fun ht => ⟨htime ht, hr.1 ht⟩) hr.2).1)
-  simp only [this]
-  rfl
+  simp only [this, hdrEff, Nat.lt_irrefl, ↓reduceIte, pure, Except.pure, bind, Except.bind, List.nil_append]
 
 theorem readLines_lines (f : CsvFmt) (geo : Bool) (pf : List Tok) (naf : Nat) (rows : List (Row × List Int))
     (hv : ValidIds f) (hsep : numChar f.sep = false) (hnl : f.sep ≠ '\n') (htime : f.idT ≠ -1 → TimeOK pf f.sep)
@@ -74,5 +73,35 @@ theorem csv_file_roundtrip (f : CsvFmt) (geo : Bool) (pf : List Tok) (h naf : Na
       obtain ⟨ra', hra, rfl⟩ := hl
       have hr := hrows ra' hra
       exact (row_roundtrip_line f geo pf naf ra'.1 ra'.2 hv hsep hnl (fun ht => ⟨htime ht, hr.1 ht⟩) hr.2).2.1
+
+theorem readLines_skip_comments (f : CsvFmt) (rf : List Tok) (cm ls : List Str)
+    (h : ∀ l ∈ cm, ∃ cs, strip l = '#' :: cs) : readLines f rf '#' (cm ++ ls) = readLines f rf '#' ls := by
+  induction cm with
+  | nil => rfl
+  | cons l r ih =>
+    obtain ⟨cs, hcs⟩ := h l (by simp)
+    simp only [List.cons_append, readLines, hcs, ↓reduceIte]
+    exact ih (fun x hx => h x (by simp [hx]))
+
+/-- a file that starts with a header block — a first line, then comment lines — followed by the data lines is
+read with `h=1` as the observations: what the repaired writer (`fmt.header = h`) produces -/
+theorem csv_header_block_roundtrip (f : CsvFmt) (geo : Bool) (pf : List Tok) (naf : Nat) (rows : List (Row × List Int))
+    (hv : ValidIds f) (hsep : numChar f.sep = false) (hnl : f.sep ≠ '\n') (htime : f.idT ≠ -1 → TimeOK pf f.sep)
+    (hrows : ∀ ra ∈ rows, RowOK f geo pf ra.1)
+    (first : Str) (cm : List Str) (hfirst : '\n' ∉ first) (hcm : ∀ l ∈ cm, '\n' ∉ l ∧ ∃ cs, strip l = '#' :: cs) :
+    readCsv f pf 1 (((first :: cm ++ rows.map (fun ra => rowLine f geo pf ra.1 ra.2)).map (· ++ ['\n'])).flatten)
+      = .ok (rows.map (fun ra => expRow f geo pf ra.1)) := by
+  unfold readCsv
+  rw [fileLines_flatten]
+  · simp only [List.cons_append, skipHeader, pure, Except.pure, bind, Except.bind]
+    rw [readLines_skip_comments f pf cm _ (fun l hl => (hcm l hl).2)]
+    exact readLines_lines f geo pf naf rows hv hsep hnl htime hrows
+  · intro l hl
+    simp only [List.cons_append, List.mem_cons, List.mem_append, List.mem_map] at hl
+    rcases hl with rfl | hl | ⟨ra, hra, rfl⟩
+    · exact hfirst
+    · exact (hcm l hl).1
+    · have hr := hrows ra hra
+      exact (row_roundtrip_line f geo pf naf ra.1 ra.2 hv hsep hnl (fun ht => ⟨htime ht, hr.1 ht⟩) hr.2).2.1
 
 end TV.TextIO
